@@ -973,6 +973,18 @@ fn run_case(case: &Case, lines: &mut Vec<String>) {
                     }
                     match op[0].as_str() {
                         "mkt" => {
+                            // input-level guard (Lean `SysHandle.MktOk`): positive price, positive
+                            // reaction quantity; anything else is rejected on both sides (the engine
+                            // panics on positions of quantity 0 / entry price 0: 0/0 in position.rs:522,554)
+                            let ok = op[1..].iter().all(|t| {
+                                let f: Vec<&str> = t.split(':').collect();
+                                parse_dec(f[1]) > Decimal::ZERO
+                                    && f.get(3).map(|q| parse_dec(q) > Decimal::ZERO).unwrap_or(true)
+                            });
+                            if !ok || op.len() < 2 {
+                                lines.push("bad-op".into());
+                                continue;
+                            }
                             for t in &op[1..] {
                                 let f: Vec<&str> = t.splitn(3, ':').collect();
                                 let i: usize = f[0].parse().unwrap();
@@ -1008,6 +1020,17 @@ fn run_case(case: &Case, lines: &mut Vec<String>) {
                             lines.push("pushed 1".into());
                         }
                         "call" => {
+                            // input-level guard (Lean `SysHandle.ActOk`): open requests carry a
+                            // positive price and a positive quantity
+                            if op[1] == "open"
+                                && op[2..].iter().any(|t| {
+                                    let f: Vec<&str> = t.split(':').collect();
+                                    f.len() != 7 || parse_dec(f[5]) <= Decimal::ZERO || parse_dec(f[6]) <= Decimal::ZERO
+                                })
+                            {
+                                lines.push("bad-op".into());
+                                continue;
+                            }
                             let sys = r.system.as_ref().unwrap();
                             let l = &r.labels;
                             let res = std::panic::catch_unwind(AssertUnwindSafe(|| match op[1].as_str() {
@@ -1182,6 +1205,28 @@ fn gen_case(out: &mut Out, rng: &mut Rng, id: &str, thorough: bool) {
     }
     if rng.chance(30) && took < 2 {
         out.line("take_audit");
+    }
+    // a request sent to the mocked exchange for the instrument that lives on the OTHER exchange: the
+    // ExecutionManager task of the mocked exchange panics (manager.rs:244-268); always the LAST request
+    // of the case and directly followed by `settle` (what the engine does with a later request for
+    // that exchange - its link is closed then - is not modelled); shutdown() then returns the join
+    // error, abort() the engine (review B C20S-1)
+    if x2 && !dead && rng.chance(12) {
+        // everything requested so far has been answered (250 ms >= every latency): what a panicking
+        // manager task does to futures still in flight is tokio's select! order, not modelled
+        out.line("sleep 250");
+        if rng.chance(65) {
+            out.line(format!("call open o:0:{k}:{}:B:10:1", *rng.pick(&cid_pool[..4])));
+        } else {
+            out.line(format!("call cancel c:0:{k}:{}", *rng.pick(&cid_pool[..4])));
+        }
+        out.line("settle");
+        if rng.chance(40) {
+            out.line("call trading off");
+            out.line("settle");
+        }
+        out.line(if rng.chance(60) { "shutdown" } else { "abort" });
+        return;
     }
     if dead {
         out.line(*rng.pick(&["join", "join", "shutdown", "abort"]));
